@@ -137,8 +137,10 @@ impl<Wr: Write> HtmlSerializer<Wr> {
                     search_start += 1;
                     "&nbsp;"
                 },
-                _ => {
-                    //  0xC2 not followed by 0xA0 (not NBSP), so keep looking.
+                byte => {
+                    //  0xC2 not followed by 0xA0 (not NBSP): it is the lead byte of another
+                    //  character, which has to be kept. Then keep looking.
+                    self.writer.write_all(&[byte])?;
                     continue;
                 },
             };
